@@ -211,7 +211,33 @@ func c22TxList(n, variant int, o *Oracle) string {
 		o.Check(c == "identity", "tx-get-by-index-"+tag, "n=%d: Get(i) %s", n, c)
 		return a, b, c
 	}
+	orig := append([]module.Transaction{}, slice...)
 	l := transaction.NewTransactionListFromSlice(mdb, slice)
+	// the caller goes on using its slice: the list must not depend on it
+	switch variant % 5 {
+	case 1:
+		for i, j := 0, n-1; i < j; i, j = i+1, j-1 {
+			slice[i], slice[j] = slice[j], slice[i]
+		}
+		o.Count("source-slice-reversed")
+	case 2:
+		for i := range slice {
+			slice[i] = c22Tx(n+i, variant+1)
+		}
+		o.Count("source-slice-overwritten")
+	case 3:
+		for i := range slice {
+			slice[i] = nil
+		}
+		o.Count("source-slice-nilled")
+	case 4:
+		slice = slice[:n/2]
+		for i := 0; i < n-n/2; i++ {
+			slice = append(slice, c22Tx(2*n+i, variant))
+		}
+		o.Count("source-slice-truncated-appended")
+	}
+	slice = orig
 	a1, b1, c1 := run(l, "built")
 	oob := "none"
 	for _, i := range []int{n, n + 1, 2*n + 7} {
@@ -270,7 +296,32 @@ func c22RcList(n, variant int, o *Oracle) string {
 		o.Check(c == "identity", "rc-get-by-index-"+tag, "n=%d: Get(i) %s", n, c)
 		return a, c
 	}
+	orig := append([]txresult.Receipt{}, slice...)
 	l := txresult.NewReceiptListFromSlice(mdb, slice)
+	switch variant % 5 {
+	case 1:
+		for i, j := 0, n-1; i < j; i, j = i+1, j-1 {
+			slice[i], slice[j] = slice[j], slice[i]
+		}
+		o.Count("source-slice-reversed")
+	case 2:
+		for i := range slice {
+			slice[i] = c22Receipt(mdb, n+i, variant+1)
+		}
+		o.Count("source-slice-overwritten")
+	case 3:
+		for i := range slice {
+			slice[i] = nil
+		}
+		o.Count("source-slice-nilled")
+	case 4:
+		slice = slice[:n/2]
+		for i := 0; i < n-n/2; i++ {
+			slice = append(slice, c22Receipt(mdb, 2*n+i, variant))
+		}
+		o.Count("source-slice-truncated-appended")
+	}
+	slice = orig
 	a1, c1 := run(l, "built")
 	oob := "none"
 	for _, i := range []int{n, n + 1, 2*n + 7} {
